@@ -314,7 +314,7 @@ func c06GenMutated(t *rapid.T) c06BytesScen {
 	case "rl-larger":
 		rl := uint32(h.rl)
 		nv := rapid.SampledFrom([]uint32{rl + 1, rl + 2, rl + 127, rl*2 + 1, 127, 128, 16383, 16384, 65535, 1 << 20, 1 << 20, 3 << 20}).Draw(t, "nrl")
-		if rapid.IntRange(0, 199).Draw(t, "huge") == 0 {
+		if rapid.IntRange(0, 199).Draw(t, "huge") == 137 { // rare (rapid favours the bounds of a range, not its middle)
 			nv = mw.MaxVarInt
 		}
 		if nv <= rl {
@@ -432,7 +432,7 @@ func c06GenMutated(t *rapid.T) c06BytesScen {
 	case 1:
 		out = append(append([]byte(nil), out...), rapid.SliceOfN(rapid.Byte(), 1, 8).Draw(t, "tailBytes")...)
 	case 2:
-		out = append(append([]byte(nil), out...), 0xff, 0xff, 0xff, 0xff)
+		out = append(append([]byte(nil), out...), 0xff, 0xff, 0x03, 0xff) // after a cut at 1: declares 64 KiB, not 256 MiB
 	}
 	s.Data = out
 	return s
@@ -446,6 +446,11 @@ func c06GenRandom(t *rapid.T) c06BytesScen {
 	case 0:
 		s.Mut = "raw"
 		s.Data = rapid.SliceOfN(rapid.Byte(), 0, 48).Draw(t, "raw")
+		// keep declared lengths of megabytes rare: they are slow only because of
+		// F-c06-alloc-declared-length and are covered by rl-larger and the constants
+		if len(s.Data) > 2 && s.Data[1]&0x80 != 0 && s.Data[2]&0x80 != 0 && rapid.IntRange(0, 19).Draw(t, "keepHuge") != 13 {
+			s.Data[2] &= 0x7f
+		}
 	default:
 		s.Mut = "framed"
 		ty := byte(rapid.IntRange(1, 15).Draw(t, "type"))
